@@ -3,6 +3,7 @@
    closed under every session step whose environment flag is ok. *)
 From Coq Require Import Arith ZArith Lia ZifyBool ZifyN ZifyNat.
 From Minimq Require Import Util Bytes Varint Utf8 Props Ser De Reader Arena Core.
+From Minimq Require Import PacketShape.
 From Minimq Require Import ArenaLemmas SerLemmas ArenaOps Inv Lts.
 
 Definition is_pub_bytes (b : bytes) : bool := match b with x :: _ => N.eqb (x / 16) 3 | [] => false end.
@@ -269,8 +270,9 @@ Proof.
     destruct q; [exact H| |].
     + destruct pid; [|exact H]. now apply Q_queue_ctl_checked.
     + destruct pid as [id|]; [|exact H].
-      destruct (mem_id id (s_srv s)); [now apply Q_queue_ctl_checked|].
-      destruct (MAX_INBOUND_QOS2 <=? glen (s_srv s)); apply Q_queue_ctl_checked; exact H.
+      match goal with |- context [queue_ctl_checked s ?a ?dl] =>
+        pose proof (Q_queue_ctl_checked s a dl H) as Hq2; destruct (queue_ctl_checked s a dl) as [s1 hr] end.
+      cbn [fst] in Hq2 |- *. destruct hr; [destruct (_ || _)|]; exact Hq2.
   - (* PUBACK *)
     destruct (ack_packet (s_ob s) pid) as [o found] eqn:E. destruct found; cbn [negb]; [|split; assumption].
     pose proof (U_ack_packet _ _ _ (inv_ob _ I) E) as HU. unfold U in HU.
@@ -515,8 +517,7 @@ Proof.
   intros s p. destruct p; cbn [handle_packet]; try reflexivity.
   - destruct q; [reflexivity| |]; destruct pid; try reflexivity.
     + now rewrite queue_ctl_checked_rt.
-    + destruct (mem_id _ _); [now rewrite queue_ctl_checked_rt|].
-      destruct (_ <=? _); now rewrite queue_ctl_checked_rt.
+    + q2_split; now rewrite queue_ctl_checked_rt.
   - destruct (ack_packet _ _) as [o f]. destruct f; cbn [negb]; [|reflexivity]. destruct (rc_success _); reflexivity.
   - destruct (ack_packet _ _) as [o f]. destruct f.
     + destruct (negb _); [reflexivity|]. destruct (check_pubrel_size _ _ _); [reflexivity|]. destruct (queue_release _ _ _); reflexivity.
